@@ -73,6 +73,12 @@ CHECKS = {
             'run with full observation: every hook logs price, position, balance, margin, active orders and a digest of every candle array it can read. For every cut minute the digest of all observable events '
             'up to that simulated time is filed under the candle prefix; all runs that share the prefix must agree, i.e. every replacement tail of the lattice at every cut point.',
             'Words have equal length; fast-simulator cuts on trading-candle boundaries only. Candle-store insert events are inputs, not observations.', 'DESIGN.md 3/C01'),
+    'C07': ('session', 'exhaustive enumeration of sessions (timeframe pairs x length remainder x mid-window fill offset x simulator x symbols x warm-up) with an in-session oracle at every hook, plus complete enumeration of the candle helpers',
+            'At every strategy hook of every session every candle array the strategy can read (all route symbols and timeframes) is compared with the reference aggregation of the 1m candles stored at that moment - '
+            'one row per started aligned window, forming row included - and current_candle with its last row; after the run the store is compared with the (gap-normalised) input. Sessions cover every remainder '
+            'of the length modulo the route timeframes, a fill at every minute offset of a window, one and two symbols, warm-up injection and both simulators for timeframe pairs up to 15m, and every supported '
+            'timeframe up to 4h (quick) / 1D (thorough) as trading and as data route. The helpers generate_candle_from_one_minutes, _get_generated_candles and inject_warmup_candles_to_store are enumerated for all 17 timeframes.',
+            'Session starts and warm-up lengths are aligned to every route timeframe (lcm), as the property assumes.', 'DESIGN.md 3/C07'),
 }
 
 NOT_APPLICABLE = {}
